@@ -287,6 +287,7 @@ def own_cases(draw):
             "fortran": draw(st.booleans()),
         },
         "in_place": draw(st.sampled_from([False, False, True])),
+        "lone": draw(st.sampled_from([False] * 7 + [True])),
     }
 
 
@@ -398,6 +399,17 @@ def check_additive(case):
 def check_own(case):
     spec, norm_var = case["data"], bool(case["norm_var"])
     data = make_dataset(spec)
+    if case.get("lone") and not norm_var:
+        # a tensor holding a single feature vector, no statistics, mean only: its own mean is itself, so the
+        # result is zero -- and, like every result, float64
+        p = dict(case["pres"])
+        p["ndim"] = max(2, int(p.get("ndim", 2)))
+        x, axis, tag = present(data[:1], p)
+        s = _fresh(False)
+        out, x0 = apply_checked(s, x, axis, False, "Standardize (no statistics, single vector)")
+        require(out.dtype == np.float64, "result dtype {} (input {}), must be float64", out.dtype, x0.dtype)
+        require(out.shape == x0.shape and bool(np.all(out == 0)), "single vector minus its own mean is not zero: {}", out.ravel()[:4].tolist())
+        return {"nontrivial": False, "labels": ["lone-vector", "dtype=" + spec["dtype"]]}
     if data.shape[0] < 2:
         raise Discard()
     mean, var = check_domain(data, True)  # the variance constraint applies either way: >= 2 distinct vectors
